@@ -62,6 +62,7 @@ class C02(common.Spec):
         log = []
         raw = []        # (dest, data-with-objects) for the identity check
         values = [dec(v) for v in case['values']]
+        sender = []
 
         class Dest(edzed.SBlock):
             def init_regular(self):
@@ -69,7 +70,8 @@ class C02(common.Spec):
 
             def _event(self, etype, data):
                 log.append(('D', int(self.name[1:]), etype, {k: enc(v) for k, v in data.items()}))
-                raw.append((int(self.name[1:]), dict(data)))
+                # what the sender's output is WHILE the event is delivered ("value = the new output")
+                raw.append((int(self.name[1:]), dict(data), sender[0].output if sender else edzed.UNDEF))
 
         class Setter(edzed.SBlock):
             def init_regular(self):
@@ -124,6 +126,7 @@ class C02(common.Spec):
                     finally:
                         log.append(('E',))
                 snd.set_output = seto
+            sender[:] = [snd]
             return snd, drv
 
         async def driver(ctx, circuit, loop):
@@ -154,10 +157,12 @@ class C02(common.Spec):
                 cur.append([e[1], e[3]])
         # identity chain on the dedicated unfiltered on_output event (destination 3)
         ident, prev_val = True, edzed.UNDEF
-        for dest, data in raw:
+        for dest, data, out_then in raw:
             if dest == 3:
                 if data['previous'] is not prev_val:
                     ident = False
+                if out_then is not data['value']:
+                    ident = False       # delivered before the sender's output was the new value
                 prev_val = data['value']
         return dict(assigns=assigns, groups=groups, stray=stray, final=res.value, identity=ident)
 
